@@ -110,8 +110,13 @@ func VP_C16_accept_bounds() {
 
 // login: succeeds exactly when the passwords are equal.
 func VP_C16_login() {
-	pw1 := string(vp.Bytes(vp.Choice(4)))
-	pw2 := string(vp.Bytes(vp.Choice(4)))
+	vpLogin(string(vp.Bytes(vp.Choice(4))), string(vp.Bytes(vp.Choice(4))))
+	vp.Cover("end")
+}
+
+// vpLogin: the real DialRCON against the real AcceptLogin; success on both sides
+// exactly when the passwords are equal.
+func vpLogin(pw1, pw2 string) {
 	var clientErr, serverErr error
 	var client RCONClientConn
 	var srv *RCONConn
@@ -149,7 +154,6 @@ func VP_C16_login() {
 		vp.Assert(clientErr != nil, "different passwords: client gets an error")
 		vp.Assert(serverErr != nil, "different passwords: server reports the rejection")
 	}
-	vp.Cover("end")
 }
 
 // commands reach the server verbatim; a response is accepted only under the
@@ -244,5 +248,29 @@ func VP_C16_resp_sizes() {
 	vp.Assert(srv.RespCmd("y") == nil, "RespCmd")
 	got, err = cli.Resp()
 	vp.Assert(err == nil && got == "y", "the next response is the next command's")
+	vp.Cover("end")
+}
+
+// long passwords: one is a prefix of the other and the lengths differ by 255,
+// 256, 257, 512 or 1024 bytes (or the passwords are equal at those lengths);
+// login still succeeds exactly when they are equal.
+func VP_C16_login_long() {
+	vp.SizeBound(1200)
+	base := string(vp.Bytes(vp.Choice(3)))
+	n := []int{255, 256, 257, 512, 1024}[vp.Choice(5)]
+	pad := make([]byte, n)
+	for i := range pad {
+		pad[i] = 'p'
+	}
+	pad[0], pad[n-1] = vp.Byte(), vp.Byte()
+	long := base + string(pad)
+	switch vp.Choice(3) {
+	case 0:
+		vpLogin(long, base)
+	case 1:
+		vpLogin(base, long)
+	default:
+		vpLogin(long, base+string(pad))
+	}
 	vp.Cover("end")
 }
